@@ -1,7 +1,7 @@
 """Independent reference DNS wire decoder (executable spec written from RFC 1035 §3.3, §4.1, §4.1.4 and the RDATA layouts of
 RFC 1183 (RP, AFSDB, RT), RFC 2163 (PX), RFC 2535 (SIG, NXT), RFC 2782 (SRV), RFC 3403 (NAPTR)).  Shares no code with mitmproxy.
 
-A decoded message is a plain tuple structure; names are tuples of raw label bytes (lower-cased ASCII, RFC 4343), RDATA of
+A decoded message is a plain tuple structure; names are tuples of raw label bytes (case preserved: compared byte-exact), RDATA of
 name-bearing types is a tuple of ("bytes", b) / ("name", labels) parts with compression expanded, any other RDATA is
 ("bytes", rdata) verbatim.  Used by the T2 checks of C25-C27.
 """
@@ -56,11 +56,11 @@ def read_name(buf: bytes, pos: int, allow_pointer=True):
         raw = buf[pos + 1:pos + 1 + n]
         if b"." in raw:
             info.add("dot_in_label")
-        if b"xn--" in raw.lower():
+        if b"xn--" in raw.lower():  # class remark only
             info.add("ace_label")
         if any(c >= 0x80 for c in raw):
             info.add("non_ascii_label")
-        labels.append(raw.lower())
+        labels.append(raw)   # byte-exact (dns-0x20: resolvers verify that the case of the question is echoed)
         pos += 1 + n
 
 
